@@ -1,2 +1,16 @@
 //! Re-exports of the value-construction support of the private `array` / `map` modules.
 pub(crate) use super::super::array::verif_kani::common::{array_borrowed, array_owned};
+
+/// Stub for `std::mem::drop`, used ONLY by obligations that say so
+/// (`#[kani::stub(std::mem::drop, ..mem_drop__releases_nothing_observable)]`).
+/// Contract assumed of the callee: disposing of a value changes no OTHER object
+/// (memory release is not observable by the property). wirefilter-engine never
+/// calls `mem::drop` itself; the call that is reached is the one inside
+/// `<BTreeMap<K, V> as Drop>::drop` (`drop(ptr::read(self).into_iter())`), on the
+/// drop glue of `LhsValue::Map`. CBMC cannot fold the variant tag of an `LhsValue`
+/// that has been moved by value (DESIGN.md 10.2 / trap 5), so every drop of an
+/// `LhsValue` explores the recursive tree tear-down of a map that is never there.
+/// The stub leaks instead of tearing down; nothing else is replaced.
+pub(crate) fn mem_drop__releases_nothing_observable<T>(x: T) {
+    std::mem::forget(x)
+}
